@@ -3,7 +3,10 @@
 use lightning::chain;
 use std::collections::HashMap;
 use std::sync::atomic::{AtomicU32, Ordering};
+#[cfg(not(feature = "verif"))]
 use std::sync::{Arc, Mutex};
+#[cfg(feature = "verif")]
+use crate::verif::sync::{Arc, Mutex};
 
 use teos_common::appointment::{compute_appointment_slots, Locator};
 use teos_common::constants::ENCRYPTED_BLOB_MAX_SIZE;
